@@ -1,5 +1,5 @@
 # replay of a bounded stand-in violation (C13): re-run native/c13_tdm.py
 import sys
-print("calls ('space1', 'lock', 'unroll2'): a refused unroll2 changed the locked flag")
+print('single band N=2, 2 time bins, dagger=True: the register-shifting unrolled program and the hand-written fresh-mode loop leave the in-flight modes in different states (max mean diff 0.0315, cov diff 1.35)')
 print('REPLAY-VIOLATION')
 sys.exit(1)
